@@ -25,6 +25,9 @@ inductive Step where
   | close
   /-- `fill_buf` is polled and takes up to `n` bytes (n ≥ 1) -/
   | read (n : Nat)
+  /-- `ChildAccumulator::snapshot_in_progress` / `ChildOutputMut::snapshot`: an information request is answered with a copy
+      of what has been captured so far -/
+  | snapshot
 
 def step (s : Pipe × Reader × List UInt8) : Step → Pipe × Reader × List UInt8
   | .write chunk =>
@@ -36,6 +39,10 @@ def step (s : Pipe × Reader × List UInt8) : Step → Pipe × Reader × List UI
     if r.done then s
     else if p.buffered.isEmpty then (p, { r with done := p.closed }, w)
     else ({ p with buffered := p.buffered.drop (max n 1) }, { r with acc := r.acc ++ p.buffered.take (max n 1) }, w)
+  | .snapshot => s
+
+/-- what a snapshot taken in state `s` shows: the bytes captured so far -/
+def snapshotOf (s : Pipe × Reader × List UInt8) : List UInt8 := s.2.1.acc
 
 def init : Pipe × Reader × List UInt8 := ({ buffered := [], closed := false }, { acc := [], done := false }, [])
 
